@@ -328,6 +328,7 @@ def run_box_case(ctx, case):
             ctx.check("box.ordered", all(a <= b for a, b in zip(seq, seq[1:])),
                       "boxplot_stats|order", case, lambda: {"sequence": seq})
         if len(fin) >= 2:
+            ctx.evaluated()
             ctx.nontrivial("box", c, bc, wc)
     # Boxplot object: per-column stats
     ctx.api("Boxplot")
@@ -445,6 +446,7 @@ def run_violin_case(ctx, case):
                       lambda: {"col": i, "ymin": float(np.nanmin(y)),
                                "ymax": float(np.nanmax(y))})
         if len(fin) >= 2:
+            ctx.evaluated()
             ctx.nontrivial("violin", c)
 
 
